@@ -15,6 +15,54 @@ fn verif_replay() {
     let path = match std::env::var("VERIF_REPLAY") { Ok(p) => p, Err(_) => return };
     let case: serde_json::Value = serde_json::from_str(&std::fs::read_to_string(path).unwrap()).unwrap();
     let a = case["args"].clone();
+    if case["driver"].as_str() == Some("handover") {
+        // the HTTP head and one whole frame arrive in ONE segment; the inline frame channel must deliver that frame
+        let side = a["side"].as_str().unwrap_or("connect").to_string();
+        let rt = tokio::runtime::Builder::new_current_thread().enable_all().build().unwrap();
+        let out = rt.block_on(async move {
+            use tokio::io::{AsyncBufReadExt, AsyncWriteExt};
+            use crate::common::frames::Frame;
+            let f = Frame { addr: Some(("example.org".to_string(), 53u16).into()), session_id: 7, body: bytes::Bytes::from_static(b"payload") };
+            let mut wire = f.make_header().to_vec();
+            wire.extend_from_slice(&f.body);
+            let (mut peer, ours) = tokio::io::duplex(65536);
+            let (_d1, dummy) = tokio::io::duplex(64);
+            let state: Arc<CtxState> = Default::default();
+            let ctx = state.create_context("l".into(), "127.0.0.1:1".parse().unwrap()).await;
+            ctx.write().await.set_target("example.org:53".parse().unwrap()).set_feature(Feature::UdpForward);
+            let res: Result<(), String> = if side == "connect" {
+                let mut seg = b"HTTP/1.1 200 OK\r\nSession-Id: 7\r\n\r\n".to_vec();
+                seg.extend_from_slice(&wire);
+                peer.write_all(&seg).await.unwrap();
+                let server = make_buffered_stream(ours);
+                let r = h11c_connect(server, ctx.clone(), "127.0.0.1:2".parse().unwrap(), "127.0.0.1:3".parse().unwrap(), "inline",
+                                     |_id: u32| async { panic!("frame_fn not expected for inline channel") }).await;
+                ctx.write().await.set_client_frames(frames_from_stream(1, dummy));
+                r.map_err(|e| e.to_string())
+            } else {
+                let mut seg = b"CONNECT example.org:53 HTTP/1.1\r\n".to_vec();
+                seg.extend_from_slice(&wire);
+                peer.write_all(&seg).await.unwrap();
+                let mut client = make_buffered_stream(ours);
+                let mut line = String::new();
+                client.read_line(&mut line).await.unwrap();      // the head parser's BufReader now holds the frame bytes
+                let mut c = ctx.write().await;
+                c.set_client_stream(client);
+                FrameChannelCallback { session_id: 7, inline: true }.on_connect(&mut c).await;
+                c.set_server_frames(frames_from_stream(1, dummy));
+                Ok(())
+            };
+            if let Err(e) = res { return serde_json::json!({"panicked": false, "error": e}); }
+            let frames = ctx.write().await.take_frames();
+            let (client, server) = match frames { Some(x) => x, None => return serde_json::json!({"panicked": false, "error": "no frame channel was set up"}) };
+            let mut rd = if side == "connect" { server.0 } else { client.0 };
+            let got = tokio::time::timeout(std::time::Duration::from_millis(500), rd.read()).await;
+            let received = matches!(&got, Ok(Ok(Some(g))) if g.body == f.body);
+            serde_json::json!({"panicked": false, "frame_received": received, "detail": format!("{:?}", got.map(|r| r.map(|o| o.map(|g| g.body))))})
+        });
+        println!("VERIF-OUTCOME {}", out);
+        return;
+    }
     let reply = unhex(a["upstream_reply"].as_str().unwrap());
     let udp = a["udp"].as_bool().unwrap_or(true);
     let rt = tokio::runtime::Builder::new_current_thread().enable_all().build().unwrap();
